@@ -213,7 +213,6 @@ DEFAULT_DEFS: List[Def] = [
         expand=Expand(macros=True),
         verify=htmlVerify,
         delimiterFilter=openingDelimiterFilter,
-        contentFilter=lambda text, *_: options.htmlSafeModeFilter(text),
     ),
     # Indented paragraph.
     Def(
@@ -319,6 +318,9 @@ def render(reader: io.Reader, writer: io.Writer, allowed: Optional[List[str]] = 
                 text = document.render(text)
             else:
                 text = utils.replaceInline(text, expand)
+                if d.name == 'html':
+                    # Apply the safe mode HTML policy to the expanded block.
+                    text = options.htmlSafeModeFilter(text)
             closetag = d.closeTag
             if d.name == 'division' and opentag == '<div>':
                 # Drop div tags if the opening div has no attributes.
